@@ -29,7 +29,10 @@ BUDGET = {"quick": (1500, 4), "thorough": (20000, 16)}
 def _case(draw):
     spec = draw(specs.spec_strategy(depth=draw(st.integers(0, 3)), sat=draw(st.booleans()),
                                     derived=draw(st.integers(0, 3)) == 0))
-    src = draw(st.sampled_from(["conforming", "near", "near", "perturb", "unrelated"]))
+    share = draw(st.integers(0, 3)) == 0
+    if share:
+        spec = specs.with_repeats(draw, spec)
+    src = draw(st.sampled_from(["conforming", "near", "near", "perturb", "unrelated", "dict-subclass"]))
     applied = None
     try:
         if src == "conforming":
@@ -38,6 +41,8 @@ def _case(draw):
             v, applied = draw(values.near(spec))
         elif src == "perturb":
             v, _ = draw(values.perturb(draw(values.conforming(spec))))
+        elif src == "dict-subclass":
+            v = values.wrap_dicts(draw, draw(values.conforming(spec)), drop=draw(st.booleans()))
         else:
             v = draw(st.one_of(
                 values.junk, values.zoo,
@@ -45,7 +50,7 @@ def _case(draw):
     except values.Unsat:
         src = "unsat->junk"
         v = draw(values.junk)
-    return {"spec": spec, "value": v, "src": src, "applied": applied}
+    return {"spec": spec, "value": v, "src": src, "applied": applied, "share": share}
 
 
 def strategy(tier):
@@ -58,7 +63,7 @@ def check(case, ctx):
 
     spec = case["spec"]
     try:
-        S = specs.build(spec)
+        S = specs.build(spec, share={} if case.get("share") else None)
     except DeclarationError as e:
         ctx.skip_undeclarable(None, e)
         return
@@ -77,6 +82,8 @@ def check(case, ctx):
     got = not res.has_errors()
     src = case["src"]
     ctx.label("src:" + src)
+    if case.get("share"):
+        ctx.label("shared-member-objects")
     if case.get("applied"):
         ctx.label("near:" + case["applied"])
     if expected is None:
@@ -96,7 +103,7 @@ def check(case, ctx):
     labs = specs.node_labels(spec)
     for lab in labs:
         ctx.label(lab)
-    if src in ("conforming", "near", "perturb"):
+    if src in ("conforming", "near", "perturb", "dict-subclass"):
         ctx.label("nontrivial:accept" if got else "nontrivial:reject")
         ctx.mark_nontrivial({"spec": spec, "value": case["value"]},
                             sample_class=(src, got, spec["t"]))
@@ -105,7 +112,7 @@ def check(case, ctx):
 def require(ctx, tier):
     L = ctx.labels
     nt = L.get("nontrivial:accept", 0) + L.get("nontrivial:reject", 0)
-    if nt == 0 or min(L.get("nontrivial:accept", 0), L.get("nontrivial:reject", 0)) < 0.2 * nt:
+    if nt == 0 or min(L.get("nontrivial:accept", 0), L.get("nontrivial:reject", 0)) < 0.1 * nt:
         raise HarnessError(f"C02 verdict balance too skewed: {L.get('nontrivial:accept')} accept / "
                            f"{L.get('nontrivial:reject')} reject")
     for lab in ("list:exact", "list:head", "list:tail", "list:contains", "list:typed",
